@@ -45,7 +45,11 @@ def rules():
     q.exists_bad("path_version_equals___version__", [ct], ct.col("path_version") != ct.col("version"), d)
     q.exists_bad("path_type_equals___type___of_top_level_class", [ct], z3.And(ct.col("top"), ct.col("path_type") != ct.col("type")), d)
     tops = [r for r in crow if r["top"]]
-    ntop = {}
+    from .. import shapes as _shapes
+
+    # version modules = modules four levels deep (kio.schema.<api>.v<N>.<type>); a module that only re-exports
+    # classes defined elsewhere has zero own classes and must be reported, not skipped
+    ntop = {m: 0 for m in _shapes.all_schema_modules() if m.count(".") == 4}
     for r in crow:
         ntop.setdefault(r["module"], 0)
         ntop[r["module"]] += 1 if r["top"] else 0
